@@ -654,7 +654,88 @@ def w9(prog, ctx):
     ctx.floor("W9", "updates of the merged statistics table", n, 1)
 
 
+# which weight routine a read of each assignment type goes through (docs/cmd.md, counting strategies: ambiguous reads are the reads
+# consistent with several features; every inconsistent type, inconsistent_ambiguous included, is admitted by the *inconsistent* strategies only)
+DISPATCH = {"ambiguous": "process_ambiguous", "inconsistent": "process_inconsistent", "inconsistent_non_intronic": "process_inconsistent",
+            "inconsistent_ambiguous": "process_inconsistent", "unique": "unique", "unique_minor_difference": "unique"}
+
+
+def w10(prog, ctx):
+    """The type dispatch of add_read_info, evaluated for every member of ReadAssignmentType (the enum's own predicates are read off their
+    `return self in [...]` bodies): each type reaches the weight routine the documentation assigns to it."""
+    ISO_ = "src/isoform_assignment.py"
+    enum = prog.cls(ISO_, "ReadAssignmentType")
+    members = [st.targets[0].id for st in enum.body if isinstance(st, ast.Assign) and isinstance(st.targets[0], ast.Name)]
+    preds = {}
+    for st in enum.body:
+        if isinstance(st, ast.FunctionDef):
+            r = [x for x in st.body if isinstance(x, ast.Return)]
+            if len(r) == 1 and isinstance(r[0].value, ast.Compare) and isinstance(r[0].value.ops[0], ast.In) \
+                    and isinstance(r[0].value.comparators[0], (ast.List, ast.Tuple, ast.Set)):
+                preds[st.name] = {(dotted(e) or "").split(".")[-1] for e in r[0].value.comparators[0].elts}
+    f = prog.func_inlined(LRC, "AssignedFeatureCounter.add_read_info")          # (helpers of the class expanded: a counting helper is counting)
+    tvars = {st.targets[0].id for st in walk_no_nested(f) if isinstance(st, ast.Assign) and isinstance(st.targets[0], ast.Name)
+             and isinstance(st.value, ast.Call) and (call_name(st.value) or "").endswith("get_assignment_type")}
+    if len(tvars) != 1:
+        ctx.undecided("W10", f, f._qualname, "the local holding the read's assignment type was not found")
+        return
+    tv = tvars.pop()
+
+    def ev(t, m):
+        if isinstance(t, ast.BoolOp):
+            vals = [ev(v, m) for v in t.values]
+            if None in vals:
+                return None
+            return all(vals) if isinstance(t.op, ast.And) else any(vals)
+        if isinstance(t, ast.UnaryOp) and isinstance(t.op, ast.Not):
+            v = ev(t.operand, m)
+            return None if v is None else not v
+        if isinstance(t, ast.Compare) and len(t.ops) == 1 and src(t.left) == tv:
+            c = t.comparators[0]
+            if isinstance(t.ops[0], (ast.Eq, ast.NotEq)) and (dotted(c) or "").startswith("ReadAssignmentType."):
+                v = dotted(c).split(".")[-1] == m
+                return v if isinstance(t.ops[0], ast.Eq) else not v
+            if isinstance(t.ops[0], (ast.In, ast.NotIn)) and isinstance(c, (ast.List, ast.Tuple, ast.Set)):
+                v = m in {(dotted(e) or "").split(".")[-1] for e in c.elts}
+                return v if isinstance(t.ops[0], ast.In) else not v
+        if isinstance(t, ast.Call) and isinstance(t.func, ast.Attribute) and src(t.func.value) == tv and t.func.attr in preds and not t.args:
+            return m in preds[t.func.attr]
+        return None
+    chains = [st for st in f.body if isinstance(st, ast.If) and any(isinstance(x, ast.Name) and x.id == tv for x in ast.walk(st.test))]
+    if len(chains) != 1:
+        ctx.undecided("W10", f, f._qualname, "expected one if/elif chain on %s at the top level of add_read_info (found %d)" % (tv, len(chains)))
+        return
+    n = 0
+    for m in members:
+        node, routine = chains[0], "none"
+        while isinstance(node, ast.If):
+            v = ev(node.test, m)
+            if v is None:
+                ctx.undecided("W10", node, f._qualname, "the test %s cannot be evaluated for %s" % (src(node.test)[:60], m))
+                return
+            if v:
+                body_calls = {c.func.attr if isinstance(c.func, ast.Attribute) else (call_name(c) or "") for st in node.body
+                              for c in ast.walk(st) if isinstance(c, ast.Call)}
+                routine = "process_ambiguous" if "process_ambiguous" in body_calls else \
+                    "process_inconsistent" if "process_inconsistent" in body_calls else \
+                    "unique" if "inc" in body_calls else "none"
+                break
+            node = node.orelse[0] if len(node.orelse) == 1 and isinstance(node.orelse[0], ast.If) else None
+        n += 1
+        want = DISPATCH.get(m, "none")
+        if routine != want:
+            ctx.fail("W10", chains[0], f._qualname, "%s -> %s" % (m, routine), "a read of type %s is weighted through %s, the documentation assigns "
+                     "it to %s: with with_ambiguous such a read adds 1/k to its k features although that strategy does not admit it (and it is "
+                     "counted in the wrong statistics line)" % (m, routine, want))
+        else:
+            ctx.ok("W10", "%s:%d" % (LRC, chains[0].lineno), "%s -> %s" % (m, routine))
+    ctx.floor("W10", "assignment types dispatched", n, 9)
+
+
 def run(prog, ctx):
+    ctx.rule("W10", "dispatch table of AssignedFeatureCounter.add_read_info over all members of ReadAssignmentType: ambiguous -> "
+                    "process_ambiguous, every inconsistent type -> process_inconsistent, unique types -> weight 1, all others uncounted")
+    w10(prog, ctx)
     ctx.rule("W8", "every get_features implementation of the assignment extractors returns a set (or a sequence made from one / filled under a "
                    "membership test): the k of the 1/k weight counts distinct features")
     w8(prog, ctx)
